@@ -29,6 +29,8 @@ var c03Payloads = map[string][][]string{
 		{"or", "1=1"}, {"or", "'a'='a"}, {"or", "1"}, {"and", "1=1"}, {"||", "1=1"}, {"or", "true"}, {"or", "1", "like", "1"},
 		{"or", "1", "=", "1"}, {"or", "2>1"}, {"or", "'1'='1'"}, {"and", "1", "in", "(1)"}, {"or", "not", "0"}, {"or", "1", "is", "not", "null"},
 		{"having", "1=1"}, {"or", "1<>2"}, {"and", "'x'", "like", "'x'"}, {"xor", "1"}, {"or", "1", "between", "0", "and", "2"},
+		// the parenthesised spellings of the same conditions (new payloads are appended: production keys carry the index)
+		{"or", "(1=1)"}, {"and", "(2>1)"}, {"||", "(1=1)"}, {"or", "(", "1", "=", "1", ")"}, {"or", "(1)", "=", "(1)"}, {"or", "(1<2)"}, {"and", "(", "'a'", "=", "'a'", ")"},
 	},
 	"union": {
 		{"union", "select", "1"}, {"union", "all", "select", "1,2"}, {"union", "select", "null,version()"}, {"union", "select", "a", "from", "b"},
